@@ -233,6 +233,60 @@ theorem run_single_writer (R : S → S → Prop) (hrefl : ∀ s, R s s) (w : Nat
         · rw [count_cons_ne_nat e]
           exact this.2.2 i t hi (by rw [List.getElem?_set_ne (Ne.symm e)]; exact ht)
 
+/-- core of the many-writers theorem: every thread either writes only inside the region or is blind to it -/
+theorem run_region_writers (R : S → S → Prop) (hrefl : ∀ s, R s s)
+    (htrans : ∀ a b c, R a b → R b c → R a c) :
+    ∀ (sched : Schedule) (s0 : S) (ts : List (Thread S L)),
+    (∀ t ∈ ts, ThreadWithin R t ∨ ThreadBlind R t) →
+    R s0 (run ⟨s0, ts⟩ sched).shared ∧
+    ∀ i t, ts[i]? = some t → ThreadBlind R t →
+      (run ⟨s0, ts⟩ sched).threads[i]? = some (advance s0 t (sched.count i)).2 := by
+  intro sched
+  induction sched with
+  | nil => intro s0 ts _; exact ⟨hrefl s0, fun i t hi _ => by simpa [run, advance] using hi⟩
+  | cons j rest ih =>
+    intro s0 ts hts
+    rw [run_cons]
+    cases hj : ts[j]? with
+    | none =>
+      have hs : stepSys (⟨s0, ts⟩ : Sys S L) j = ⟨s0, ts⟩ := by simp [stepSys, hj]
+      rw [hs]
+      refine ⟨(ih s0 ts hts).1, fun i t hi hb => ?_⟩
+      have hne : i ≠ j := by intro e; subst e; rw [hj] at hi; cases hi
+      rw [count_cons_ne_nat hne]
+      exact (ih s0 ts hts).2 i t hi hb
+    | some tj =>
+      have hjl : j < ts.length := (List.getElem?_eq_some_iff.mp hj).1
+      have htj := hts tj (List.mem_of_getElem? hj)
+      have hs : stepSys (⟨s0, ts⟩ : Sys S L) j = ⟨(stepThread s0 tj).1, ts.set j (stepThread s0 tj).2⟩ := by
+        simp [stepSys, hj]
+      rw [hs]
+      -- the step stays inside the region, and the stepped thread keeps its kind
+      have hR : R s0 (stepThread s0 tj).1 := by
+        rcases htj with hw | hb
+        · exact (stepThread_within hrefl hw s0).1
+        · rw [(stepThread_blind hb s0).1]; exact hrefl s0
+      have hkind : ThreadWithin R (stepThread s0 tj).2 ∨ ThreadBlind R (stepThread s0 tj).2 := by
+        rcases htj with hw | hb
+        · exact Or.inl (stepThread_within hrefl hw s0).2
+        · exact Or.inr (stepThread_blind hb s0).2.1
+      have hts' : ∀ t ∈ ts.set j (stepThread s0 tj).2, ThreadWithin R t ∨ ThreadBlind R t := by
+        intro t ht
+        rcases List.mem_or_eq_of_mem_set ht with ht | ht
+        · exact hts t ht
+        · rw [ht]; exact hkind
+      have IH := ih (stepThread s0 tj).1 (ts.set j (stepThread s0 tj).2) hts'
+      refine ⟨htrans _ _ _ hR IH.1, fun i t hi hb => ?_⟩
+      by_cases e : i = j
+      · subst e
+        rw [hj] at hi; cases hi
+        have hsb := stepThread_blind hb s0
+        rw [count_cons_self_nat, advance_succ]
+        exact IH.2 i _ (by simp [hjl]) hsb.2.1
+      · rw [count_cons_ne_nat e]
+        have h3 := IH.2 i t (by rw [List.getElem?_set_ne (Ne.symm e)]; exact hi) hb
+        rw [h3, (advance_blind hb hR _).2]
+
 /-! ### the concrete programs -/
 
 /-- the two shared states differ at most in the random source's position -/
